@@ -13,6 +13,6 @@ Separate Extraction
   Sched.Dfs.dfs_run Sched.Dfs.dfs_outcome Sched.Dfs.leaves Sched.Dfs.truncate Sched.Dfs.wf_treeb Sched.Dfs.next_task Sched.Dfs.new_execution Sched.Dfs.dfs_new
   Sched.Random.rs_new_from_seed Sched.Random.rs_new_execution Sched.Random.rs_next_task Sched.Random.rs_next_u64
   Sched.Pct.pct_new_from_seed Sched.Pct.pct_new_execution Sched.Pct.pct_next_task Sched.Pct.pct_next_u64
-  Sched.Random.fd_initialize Sched.Random.fd_reinitialize Sched.Random.fd_next_u64 Sched.Random.pcg_from_seed_u64 Sched.Random.pcg_next_u64 Sched.Replay.replay Engine.Failure.do_history Engine.Failure.init_pstate
+  Sched.Random.fd_initialize Sched.Random.fd_reinitialize Sched.Random.fd_next_u64 Sched.Random.pcg_from_seed_u64 Sched.Random.pcg_next_u64 Sched.Replay.replay Engine.Failure.do_history Engine.Failure.init_pstate Engine.Failure.portfolio_run Engine.Failure.ug_run Engine.Failure.ug_history Engine.Failure.panic_result
   Lang.PlOps.run_pl Lang.PlMap.hist_results
   Lang.Tok.run_tok Lang.TokOps.mpsc_new Lang.TokOps.tok_sem_new Lang.TokNotify.notify_new Lang.TokNotify.oneshot_new.
